@@ -17,14 +17,20 @@ ID = 'C09'
 LEVEL = 'proof'
 RULE = ('corpus; _get_output decision: random (array, out, dtype) descriptor triples incl. every reject reason; '
         'out-sweep: every (function, out|output) pair of the public API (by introspection) x {valid, deprecated alias, '
-        'wrong dtype, wrong shape, strided, negative stride, Fortran, read-only, documented aliasing} x inputs of the '
-        'ranks the function supports (1-3 D). Non-trivial = the variant is not the plain valid buffer or the result '
+        'wrong dtype, wrong shape, strided, negative stride, Fortran, read-only, documented aliasing, out = each array argument itself, '
+        'out overlapping the image, other byte order, zero-size input with matching out, zero-size out, 0-d out, zero-stride broadcast view} x inputs of the '
+        'ranks the function supports (1-3 D), modes / structuring elements / axes (also negative) / orders varied. Non-trivial = the variant is not the plain valid buffer or the result '
         'differs from the sentinel fill; distinct = distinct (function, parameter, variant, rank, seed).')
 ASSUMPTIONS = ['the documented dtype/shape of `out` is the dtype/shape of the result of the same call without out '
                '(zoom: any dtype/shape, by its docstring; remove_bordering: nothing documented beyond the in-place use)',
                'a non-contiguous buffer whose shape makes it C-contiguous anyway (length-1 axes, rank 1 Fortran) counts as valid',
                'a view of `out` with the same memory, shape and strides counts as "that same array" (hitmiss returns the uint8 view of a bool buffer)',
-               'aliasing out with the input is exercised only where in-place use is documented (subm, remove_bordering)',
+               'out aliasing the IMAGE argument (the array itself, or a partially overlapping view) is judged for every function: the '
+               'result must be the result of the call without out (every wrapper copies the image when np.may_share_memory says so, '
+               'or works in place by construction); out aliasing a second operand is judged where the wrapper guards it (subm b, '
+               'cerode g) and only recorded for structuring elements / weights / templates',
+               'an out of the documented dtype in the other byte order may be rejected (cleanly) or accepted (then the VALUES read '
+               'through the buffer must be the result); zero-size and 0-d inputs that the function refuses cleanly are skipped',
                'read-only buffers are exercised and their fate recorded (tags) but not judged: the statement is silent about them',
                'float results with and without out are compared with relative tolerance 1e-12']
 TRUSTED = ['numpy (buffer construction, flags, shares_memory)']
@@ -37,19 +43,42 @@ MODULES = ['mahotas', 'mahotas.morph', 'mahotas.convolve', 'mahotas.labeled', 'm
            'mahotas.features.surf', 'mahotas.features.lbp', 'mahotas.stretch', 'mahotas.distance', 'mahotas.resize',
            'mahotas.edge', 'mahotas.thin', 'mahotas.euler', 'mahotas.bbox', 'mahotas.center_of_mass', 'mahotas.histogram']
 
-VARIANTS = ['valid', 'wrong_dtype', 'wrong_shape', 'wrong_shape_t', 'strided', 'negstride', 'fortran', 'readonly', 'alias', 'alias_strided']
+VARIANTS = ['valid', 'wrong_dtype', 'wrong_shape', 'wrong_shape_t', 'strided', 'negstride', 'fortran', 'readonly', 'alias', 'alias_strided',
+            # round 4: out aliases array argument k (k = 0, 1, 2: the image AND every other array operand - structuring element,
+            # weights, template, cerode's g, subm's b), in three forms: `in` the very object, `view` another view object over
+            # exactly the same memory (`a[:]`, `a.reshape(a.shape)`), `shift` a C-contiguous view of one larger 1-D buffer
+            # that overlaps the argument by a shift of +-1 ... +-row elements (the argument is then a view of that buffer too);
+            # then: documented dtype in the other byte order, zero-size input with matching out, zero-size out, 0-d out, a
+            # zero-stride (broadcast) view
+            'alias_in0', 'alias_in1', 'alias_in2', 'alias_view0', 'alias_view1', 'alias_view2',
+            'alias_shift0', 'alias_shift1', 'alias_shift2',
+            'byteswapped', 'zerosize', 'zerosize_out', 'zerod', 'broadcast',
+            # a 64-bit integer image and an out of the EQUAL dtype with the other C type number ('l' vs 'q', 'L' vs 'Q':
+            # `np.dtype('l') == np.dtype('q')`, so `_get_output` accepts it; the native re-check must use an equivalence test)
+            'equivtype']
+EQUIV = {'l': 'q', 'q': 'l', 'L': 'Q', 'Q': 'L'}
+
+
+def _alias_form(variant):
+    """'alias_view1' -> ('view', 1); None for the other variants"""
+    for form in ('in', 'view', 'shift'):
+        if variant.startswith('alias_' + form) and variant[len('alias_' + form):].isdigit():
+            return form, int(variant[len('alias_' + form):])
+    return None
 
 
 def dtcode(dt):
     dt = np.dtype(dt)
-    return ord(dt.kind) * 1000 + dt.itemsize
+    # numpy's dtype comparison (what `_get_output` uses) distinguishes byte orders: part of the canonical code
+    return ord(dt.kind) * 1000 + dt.itemsize + (0 if dt.isnative else 500)
 
 
 REG = {}
 
 
-def reg(path, genf, dims=(1, 2, 3), flow='kernel', res='same', req=('dtype', 'shape', 'contig'), alias=False, inp=0):
-    REG[path] = dict(path=path, gen=genf, dims=dims, flow=flow, res=res, req=set(req), alias=alias, inp=inp)
+def reg(path, genf, dims=(1, 2, 3), flow='kernel', res='same', req=('dtype', 'shape', 'contig'), alias=False, inp=0, aflow=None):
+    REG[path] = dict(path=path, gen=genf, dims=dims, flow=flow, res=res, req=set(req), alias=alias, inp=inp,
+                     aflow=aflow or {'label': 'inplace', 'convolve1d': 'kernel', 'gaussian1d': 'kernel', 'zoom': 'kernel', 'hitmiss': 'hitmiss'}.get(flow, flow))
 
 
 def _registry():
@@ -57,7 +86,7 @@ def _registry():
         return REG
     M, C, L, I = 'mahotas.morph.', 'mahotas.convolve.', 'mahotas.labeled.', 'mahotas.interpolate.'
 
-    def img(g, nd, dts=(bool, np.uint8, np.int16, np.int32)):
+    def img(g, nd, dts=(bool, np.uint8, np.int16, np.int32, np.int64, np.uint64)):
         dt = g.r.choice(dts)
         shp = g.shape(nd, 2)
         return g.b(shp) if dt is bool else g.img(shp, dt)
@@ -73,7 +102,7 @@ def _registry():
     reg(M + 'tophat_close', morph, flow='tophat_close')
 
     def cer(g, nd):
-        A = img(g, nd, (np.uint8, np.int16, np.int32))
+        A = img(g, nd, (np.uint8, np.int16, np.int32, np.int64, np.uint64))
         return [A, g.img(A.shape, A.dtype), g.bc(nd).astype(A.dtype)], {}
     reg(M + 'cerode', cer, flow='cerode')
 
@@ -86,7 +115,7 @@ def _registry():
         dims=(2,), flow='hitmiss', res=None)
     # also images with an axis shorter than the window (the kernel returns early: the buffer must still hold the result)
     reg(M + 'majority_filter', lambda g, nd: ([g.b(g.shape(2, 3)) if g.r.random() < 0.6 else g.b((g.r.randint(1, 2), g.r.randint(1, 7))[::g.r.choice([1, -1])])],
-                                             {'N': g.r.choice([3, 3, 5])}), dims=(2,), res='bool')
+                                             {'N': g.r.choice([3, 3, 5, 7])}), dims=(2,), res='bool')
 
     _mode = lambda g: ({'mode': g.r.choice(['nearest', 'wrap', 'reflect', 'mirror', 'constant', 'ignore', 'ignore'])}
                        if g.r.random() < 0.5 else {})
@@ -98,7 +127,7 @@ def _registry():
         reg(M + fn, ext, res='bool')
 
     reg(C + 'convolve', lambda g, nd: ([g.fl(g.shape(nd, 2)), g.fl(tuple(g.r.randint(1, 3) for _ in range(nd)), 0, 3)], _mode(g)))
-    reg(C + 'convolve1d', lambda g, nd: ([g.fl(g.shape(nd, 4)), g.fl((g.r.choice([2, 3]),), 0, 3), g.r.randrange(nd)], _mode(g)), flow='convolve1d')
+    reg(C + 'convolve1d', lambda g, nd: ([g.fl(g.shape(nd, 4)), g.fl((g.r.choice([2, 3, 3, 5, 7]),), 0, 3), g.r.randrange(-nd, nd)], _mode(g)), flow='convolve1d')
 
     MODES = ['nearest', 'wrap', 'reflect', 'mirror', 'constant', 'ignore']
 
@@ -120,24 +149,30 @@ def _registry():
 
     def filt(g, nd):
         bc = offbc(g, nd) if g.r.random() < 0.35 else g.bc(nd)
-        return [g.img(g.shape(nd, 2), g.r.choice([np.uint8, np.int32, np.float64])), bc], mode(g)
+        return [g.img(g.shape(nd, 2), g.r.choice([np.uint8, np.int32, np.float64, np.int64, np.uint64])), bc], mode(g)
     reg(C + 'median_filter', filt)
     reg(C + 'mean_filter', filt, res='float64')
     reg(C + 'rank_filter', lambda g, nd: (lambda a, kw: (a + [0], kw))(*filt(g, nd)))
     reg(C + 'template_match', lambda g, nd: ([g.fl(g.shape(nd, 3)), g.fl((2,) * nd, 0, 3)], mode(g)))
-    reg(C + 'gaussian_filter', lambda g, nd: ([g.fl(g.shape(nd, 3)), 0.75], mode(g, 0.4)), flow='gaussian')
-    reg(C + 'gaussian_filter1d', lambda g, nd: ([g.fl(g.shape(nd, 3)), 0.75, g.r.randrange(nd)], mode(g, 0.4)), flow='gaussian1d')
+    _gorder = lambda g: ({'order': g.r.choice([0, 1, 2, 3])} if g.r.random() < 0.4 else {})
+    reg(C + 'gaussian_filter', lambda g, nd: ([g.fl(g.shape(nd, 3)), g.r.choice([0.75, 0.75, 0.5, 1.25])], dict(mode(g, 0.4), **_gorder(g))), flow='gaussian')
+    reg(C + 'gaussian_filter1d', lambda g, nd: ([g.fl(g.shape(nd, 3)), g.r.choice([0.75, 0.5, 1.25]), g.r.randrange(-nd, nd)], dict(mode(g, 0.4), **_gorder(g))), flow='gaussian1d')
 
     reg(L + 'label', lambda g, nd: ([g.b(g.shape(nd, 2)), g.bc(nd)], {}), res='int32', flow='label')
     reg(L + 'remove_bordering', lambda g, nd: ([g.lab(g.shape(nd, 3), 3, np.int32)], {}), flow=None, req=(), alias=True, dims=(2, 3))
-    reg(L + 'border', lambda g, nd: ([g.lab(g.shape(nd, 3), 3, np.int32), 1, 2], {}), res='bool', dims=(2, 3))
-    reg(L + 'borders', lambda g, nd: ([g.lab(g.shape(nd, 3), 3, np.int32)], {}), res='bool', dims=(2, 3))
+    _lbc = lambda g, nd: ({'Bc': g.bc(nd)} if g.r.random() < 0.5 else {})
+    reg(L + 'border', lambda g, nd: ([g.lab(g.shape(nd, 3), 3, np.int32), g.r.choice([0, 1, 1]), g.r.choice([2, 2, 3])],
+                                     _lbc(g, nd)), res='bool', dims=(2, 3))
+    reg(L + 'borders', lambda g, nd: ([g.lab(g.shape(nd, 3), 3, np.int32)],
+                                      dict(_lbc(g, nd), **({'mode': g.r.choice(['constant', 'nearest', 'wrap', 'reflect', 'mirror', 'ignore'])} if g.r.random() < 0.5 else {}))),
+        res='bool', dims=(2, 3))
 
-    reg(I + 'spline_filter1d', lambda g, nd: ([g.fl(g.shape(nd, 4)), 3, g.r.randrange(nd)], {}), res='float64')
-    reg(I + 'spline_filter', lambda g, nd: ([g.fl(g.shape(nd, 4))], {}), res='float64')
+    reg(I + 'spline_filter1d', lambda g, nd: ([g.fl(g.shape(nd, 4)), g.r.choice([2, 3, 3, 4]), g.r.randrange(-nd, nd)], {}), res='float64', aflow='inplace')
+    reg(I + 'spline_filter', lambda g, nd: ([g.fl(g.shape(nd, 4))], ({'order': g.r.choice([2, 3, 4])} if g.r.random() < 0.5 else {})), res='float64', aflow='inplace')
     _imode = lambda g: ({'mode': g.r.choice(['nearest', 'wrap', 'reflect', 'mirror', 'constant'])} if g.r.random() < 0.5 else {})
-    reg(I + 'shift', lambda g, nd: ([g.fl(g.shape(nd, 4)), [g.r.choice([0.5, -1.25, 2.0, 7.5])] * nd], _imode(g)), res='float64')
-    reg(I + 'zoom', lambda g, nd: ([g.fl(g.shape(nd, 4)), 1.5], _imode(g)), flow='zoom', req=('contig',), res=None)
+    _iord = lambda g: ({'order': g.r.choice([1, 2, 3, 4])} if g.r.random() < 0.5 else ({'prefilter': False} if g.r.random() < 0.3 else {}))
+    reg(I + 'shift', lambda g, nd: ([g.fl(g.shape(nd, 4)), [g.r.choice([0.5, -1.25, 2.0, 7.5])] * nd], dict(_imode(g), **_iord(g))), res='float64')
+    reg(I + 'zoom', lambda g, nd: ([g.fl(g.shape(nd, 4)), g.r.choice([1.5, 1.5, 0.75, 2.0])], dict(_imode(g), **_iord(g))), flow='zoom', req=('contig',), res=None)
     reg('mahotas.features.texture.cooccurence', lambda g, nd: ([g.u8(g.shape(2, 3), 4), 0], {}), dims=(2,), flow=None,
         req=('dtype',), res=None)
     return REG
@@ -254,6 +289,59 @@ def _mk_out(variant, shape, dtype, g, args, e):
         v[...] = a
         args[e['inp']] = v
         return v, False
+    af = _alias_form(variant)
+    if af is not None:
+        form, k = af
+        if k >= len(args) or not isinstance(args[k], np.ndarray):
+            return None
+        a = args[k]
+        if a.shape != shape or a.dtype != dtype or not a.flags.c_contiguous or a.ndim == 0 or a.size == 0:
+            return None
+        if form == 'in':
+            return a, True
+        if form == 'view':
+            v = a[...] if g.r.random() < 0.5 else a.reshape(a.shape)
+            return (v, True) if v is not a else None
+        # shift: argument and out are both C-contiguous views of ONE 1-D root, `d` elements apart (0 < |d| <= one row)
+        if n0 < 2:
+            return None
+        row = int(np.prod(shape[1:])) if len(shape) > 1 else 1
+        d = g.r.choice([1, -1, row, -row, g.r.randint(1, max(1, row)), -g.r.randint(1, max(1, row))])
+        if abs(d) >= n0:
+            d = 1 if d > 0 else -1
+        root = _carve((n0 + abs(d),), dtype, slack=n0)
+        lo_a, lo_o = (0, d) if d > 0 else (-d, 0)
+        img = root[lo_a:lo_a + n0].reshape(shape)
+        img[...] = a
+        args[k] = img
+        return root[lo_o:lo_o + n0].reshape(shape), True
+    if variant == 'equivtype':
+        ch = args[e['inp']].dtype.char if isinstance(args[e['inp']], np.ndarray) else ''
+        if ch not in EQUIV or dtype.char not in EQUIV or 'dtype' not in e['req'] and not e['path'].endswith('remove_bordering'):
+            return None
+        o = _carve(shape, np.dtype(EQUIV[dtype.char]))
+        return (o, True) if o.dtype.char == EQUIV[dtype.char] else None
+    if variant == 'byteswapped':
+        if dtype.itemsize == 1 or 'dtype' not in e['req'] and not e['path'].endswith('.zoom'):
+            return None
+        return _carve(shape, dtype.newbyteorder(), slack=n0), 'either'
+    if variant == 'zerosize':
+        # zero-size INPUT (made by `_pre`) with the matching zero-size out: a valid buffer
+        if not (n0 == 0 and len(shape) > 0):
+            return None
+        return _carve(shape, dtype), True
+    if variant in ('zerod', 'zerosize_out'):
+        # a 0-d / zero-size out of the right dtype for an ordinary input: wrong shape, to be rejected and left alone
+        if n0 == 0 or len(shape) == 0 or ('shape' not in e['req'] and not (variant == 'zerod' and e['path'].endswith('.zoom'))):
+            return None
+        s2 = () if variant == 'zerod' else ((0,) + shape[1:] if g.r.random() < 0.5 or len(shape) == 1 else shape[:-1] + (0,))
+        return _carve(s2, dtype, slack=n0), False
+    if variant == 'broadcast':
+        if loose or len(shape) < 2 or shape[0] < 2 or n0 == 0:
+            return None
+        row = _carve(shape[1:], dtype, slack=n0)
+        v = np.lib.stride_tricks.as_strided(row, shape=shape, strides=(0,) + row.strides)
+        return v, False
     if variant == 'alias':
         if not e['alias']:
             return None
@@ -262,6 +350,54 @@ def _mk_out(variant, shape, dtype, g, args, e):
             return None
         return a, True
     raise ValueError(variant)
+
+
+def _pre(case, e, g, args):
+    """round 4: variants that change the *inputs* (before the reference call without out is made)"""
+    v = case['variant']
+    k = e['inp']
+    af = _alias_form(v)
+    if af is not None:
+        form, j = af
+        if j >= len(args) or not isinstance(args[j], np.ndarray):
+            return
+        want = None if e['res'] in (None, 'same') else np.dtype(e['res'])
+        if e['path'].endswith('.zoom'):
+            args[1] = 1.0          # out fixes the shape: an argument can only be the out when the shape is kept
+        if j != k and isinstance(args[k], np.ndarray):
+            # a second operand can only be the out when the image has ITS shape: shrink / tile the image
+            if args[j].ndim != args[k].ndim or args[j].size == 0:
+                return
+            shp0 = args[k].shape
+            for i, x in enumerate(args):      # the image and its same-shaped companions (cerode's g, subm's b)
+                if i != j and isinstance(x, np.ndarray) and x.shape == shp0:
+                    args[i] = np.resize(x, args[j].shape)
+            if want is None and e['res'] == 'same':
+                want = args[k].dtype
+        if want is not None and args[j].dtype != want:
+            # give the argument the documented result dtype where that is a fixed one, so that it CAN serve as the out
+            args[j] = (args[j] != 0) if want == np.bool_ else args[j].astype(want)
+        args[j] = np.ascontiguousarray(args[j])
+    elif v == 'equivtype':
+        # the image (and every array operand of its dtype) becomes a 64-bit integer array created with one of the four type
+        # characters; `_mk_out` then builds the out with the twin character
+        a = args[k]
+        if not isinstance(a, np.ndarray) or e['res'] != 'same' and e['res'] is not None or a.dtype.kind == 'f' and e['path'].split('.')[-1] in (
+                'gaussian_filter', 'gaussian_filter1d', 'spline_filter', 'spline_filter1d', 'shift', 'zoom'):
+            return
+        ch = g.r.choice('lqLQ')
+        dt0 = a.dtype
+        for i, x in enumerate(args):
+            if isinstance(x, np.ndarray) and (x.dtype == dt0 or i == k):
+                args[i] = np.abs(x).astype(np.dtype(ch)) if x.dtype.kind in 'iuf' else x.astype(np.dtype(ch))
+    elif v == 'zerosize':
+        a = args[k]
+        if not isinstance(a, np.ndarray) or a.ndim == 0:
+            return
+        shp = (0,) + a.shape[1:] if g.r.random() < 0.6 or a.ndim == 1 else a.shape[:-1] + (0,)
+        for i, x in enumerate(args):
+            if isinstance(x, np.ndarray) and x.shape == a.shape:
+                args[i] = np.empty(shp, x.dtype)
 
 
 def _desc(prefix, a):
@@ -279,7 +415,7 @@ def _key(e, param, variant, what):
         return 'gaussian_filter1d:out-ignored'
     if name == 'zoom' and what.startswith('wrong-exception'):
         return 'zoom:out-noncontiguous-RuntimeError'
-    if name == 'convolve1d' and what == 'valid-rejected':
+    if name == 'convolve1d' and what == 'valid-rejected' and variant == 'valid':
         return 'convolve1d:axis0-valid-out-rejected'
     if name == 'convolve1d' and variant == 'wrong_shape_t' and what == 'invalid-accepted':
         return 'convolve1d:axis0-transposed-shape-out-accepted'
@@ -316,16 +452,25 @@ def _eval_out(cases):
         e = reg_[case['fn']]
         g = c08.G(case['seed'], case.get('size', 5))
         args, kwargs = e['gen'](g, case['nd'])
+        _pre(case, e, g, args)
         f = _resolve(e['path'])
         inp = args[e['inp']]
         base_args = [a.copy() if isinstance(a, np.ndarray) else a for a in args]
         try:
             base = _call(f, base_args, kwargs, None, None)
         except Exception as ex:  # noqa
-            prepared.append((case, e, None, ('base-exc', type(ex).__name__, str(ex)[:200]), None, None, None))
+            if case['variant'] == 'zerosize' and isinstance(ex, (ValueError, TypeError)):
+                # the function refuses empty / 0-d input altogether (cleanly): nothing to say about out
+                prepared.append((case, e, None, ('n/a-input-refused',), None, None, None))
+            else:
+                prepared.append((case, e, None, ('base-exc', type(ex).__name__, str(ex)[:200]), None, None, None))
             lines.append('ping')
             continue
         b0 = base[0] if isinstance(base, tuple) else base       # label returns (labeled, n)
+        if not isinstance(b0, np.ndarray):
+            prepared.append((case, e, None, ('n/a',), None, None, None))
+            lines.append('ping')
+            continue
         mk = _mk_out(case['variant'], b0.shape, b0.dtype, g, args, e)
         if mk is None:
             prepared.append((case, e, None, ('n/a',), None, None, None))
@@ -336,6 +481,10 @@ def _eval_out(cases):
         arr_desc = np.empty(b0.shape, inp.dtype if e['res'] == 'same' else b0.dtype)
         flow = e['flow']
         line = 'ping'
+        if _alias_form(case['variant']) is not None:
+            flow = None
+            if e['aflow'] is not None and out.ndim > 0:
+                line = (f"c09 kind=alias fn={e['aflow']} i={_alias_form(case['variant'])[1]} guard=1 {_desc('a', out)} dt={dtcode(b0.dtype)}")
         if flow in ('kernel', 'label', 'open', 'close', 'cerode', 'subm', 'tophat_open', 'tophat_close', 'gaussian', 'gaussian1d'):
             fl = {'label': 'kernel'}.get(flow, flow)
             if flow in ('open', 'close') and case['param'] == 'output':
@@ -375,7 +524,8 @@ def _eval_out(cases):
         out, valid = ob
         findings = []
         root = c08._root(out)
-        before_root = root.tobytes() if variant != 'alias' else None
+        aliasing = variant == 'alias' or _alias_form(variant) is not None
+        before_root = root.tobytes() if not aliasing else None
         ins_before = [c08._digest(a) for a in args if isinstance(a, np.ndarray)]
         try:
             r = _call(f, args, kwargs, param, out)
@@ -387,8 +537,35 @@ def _eval_out(cases):
                    expect_shape=list(b0.shape), expect_dtype=str(b0.dtype), outcome=outcome[0] if outcome[0] == 'ok' else outcome[1:])
         if variant != 'alias':
             for a, d0 in zip([a for a in args if isinstance(a, np.ndarray)], ins_before):
+                if aliasing and np.may_share_memory(a, out):
+                    continue        # the caller asked for this array to be overwritten
                 if c08._digest(a) != d0:
                     findings.append(dict(kind='property', key=_key(e, param, variant, 'input-modified'), detail=det))
+        if valid == 'observe':
+            # out is a second operand (structuring element, weights, template) nobody documents as a possible out: recorded only
+            r0 = outcome[1][0] if outcome[0] == 'ok' and isinstance(outcome[1], tuple) else outcome[1] if outcome[0] == 'ok' else None
+            tags['alias_other'] = ('raised' if outcome[0] == 'exc' else
+                                   'equal' if c08.same(c08.canon(np.array(r0)), c08.canon(b0)) is None else 'differs')
+            valid = None
+        elif valid == 'either':
+            # documented dtype, other byte order: rejected (cleanly) or accepted with the right VALUES in the caller's buffer
+            if outcome[0] == 'ok':
+                r0 = r[0] if isinstance(r, tuple) else r
+                if not _same_array(r0, out):
+                    findings.append(dict(kind='property', key=_key(e, param, variant, 'not-returned'), detail=det))
+                got = np.array(out).astype(out.dtype.newbyteorder('='))
+                why = c08.same(c08.canon(got), c08.canon(b0)) if got.dtype == b0.dtype else None
+                if why:
+                    findings.append(dict(kind='property', key=_key(e, param, variant, 'differs'), detail=dict(det, why=why)))
+                tags['byteswapped'] = 'accepted'
+            else:
+                if outcome[1] not in ('ValueError', 'TypeError'):
+                    findings.append(dict(kind='property', key=_key(e, param, variant, 'wrong-exception-' + outcome[1]), detail=det))
+                if touched:
+                    findings.append(dict(kind='property', key=_key(e, param, variant, 'touched-on-rejection'), detail=det))
+                tags['byteswapped'] = 'rejected'
+            # a rejection is also what the Lean decision function predicts (the dtype codes differ): compared below
+            valid = None if outcome[0] == 'ok' else False
         if valid is True:
             if outcome[0] == 'exc':
                 findings.append(dict(kind='property', key=_key(e, param, variant, 'valid-rejected'), detail=det))
@@ -396,7 +573,7 @@ def _eval_out(cases):
                 r0 = r[0] if isinstance(r, tuple) else r
                 if not _same_array(r0, out):
                     findings.append(dict(kind='property', key=_key(e, param, variant, 'not-returned'), detail=det))
-                why = c08.same(c08.canon(np.array(out)), c08.canon(b0)) if e['path'] != 'mahotas.interpolate.zoom' or variant == 'valid' else None
+                why = c08.same(c08.canon(np.array(out)), c08.canon(b0)) if e['path'] != 'mahotas.interpolate.zoom' or variant == 'valid' or aliasing else None
                 if why and e['path'].endswith('cooccurence'):
                     why = None if np.array_equal(np.array(out)[:b0.shape[0], :b0.shape[1]], b0) else why
                 if why:
@@ -411,10 +588,19 @@ def _eval_out(cases):
                     findings.append(dict(kind='property', key=_key(e, param, variant, 'wrong-exception-' + outcome[1]), detail=det))
                 if touched:
                     findings.append(dict(kind='property', key=_key(e, param, variant, 'touched-on-rejection'), detail=det))
-        else:   # read-only: the statement does not speak about it; recorded in the distribution only
+        elif variant == 'readonly':   # read-only: the statement does not speak about it; recorded in the distribution only
             tags['readonly'] = 'written' if touched else ('rejected' if outcome[0] == 'exc' else 'unwritten')
         # the Lean model's prediction for this wrapper
-        if (valid is not None or e['flow'] == 'zoom') and 'res' in drv:
+        if _alias_form(variant) is not None and 'same' in drv:
+            # `out` is an input: the aliasing model says whether the call returns that buffer holding the result of the call without out
+            real_same = (outcome[0] == 'ok' and _same_array(outcome[1][0] if isinstance(outcome[1], tuple) else outcome[1], out)
+                         and c08.same(c08.canon(np.array(out)), c08.canon(b0)) is None)
+            tags['model'] = 'alias-safe' if drv['same'] == '1' else 'alias-unspecified'
+            if drv['same'] == '1' and drv.get('ret') == 'out' and not real_same and not findings:
+                findings.append(dict(kind='model', key=f"{tags['fn']}:alias-model", detail=dict(det, model=drv)))
+        elif _alias_form(variant) is not None:
+            pass
+        elif (valid is not None or e['flow'] == 'zoom') and 'res' in drv:
             pred_ok = drv['res'] == 'ok' and drv.get('ret') == 'out'
             alt_ok = pin is not None and pin.get('res') == 'ok' and pin.get('ret') == 'out'
             real_ok = outcome[0] == 'ok' and _same_array(outcome[1][0] if isinstance(outcome[1], tuple) else outcome[1], out)
@@ -434,7 +620,7 @@ def _eval_out(cases):
                 findings.append(dict(kind='model', key='hitmiss:validation-model', detail=dict(det, model=d, real=real)))
         # T3: without out the result has the documented dtype and the input's shape
         inp = args[e['inp']]
-        if variant == 'valid' and e['res'] is not None:
+        if e['res'] is not None:       # (round 4: on every call of the sweep, not only next to a valid buffer)
             want = inp.dtype if e['res'] == 'same' else np.dtype(e['res'])
             if b0.dtype != want or b0.shape != inp.shape:
                 findings.append(dict(kind='property', key=_key(e, param, variant, 'default-dtype-shape'),
@@ -447,7 +633,7 @@ def _eval_out(cases):
         res.append(dict(findings=keep, nontrivial=bool(variant != 'valid' or not np.all(np.array(out) == _sent(out.dtype))),
                         sig=json.dumps(case, sort_keys=True),
                         tags=dict(tags, outcome=outcome[0] if outcome[0] == 'ok' else 'exc:' + outcome[1],
-                                  valid={True: 'valid', False: 'invalid', None: 'readonly'}[valid])))
+                                  valid={True: 'valid', False: 'invalid', None: 'unjudged'}[valid])))
     return res
 
 
@@ -549,7 +735,34 @@ def _eval_cover(case):
     findings = []
     if missing:
         findings.append(dict(kind='model', key='registry:unregistered-out-parameter', detail=dict(missing=missing)))
-    return dict(findings=findings, nontrivial=True, sig='cover', tags=dict(stream='cover', pairs=len(pairs), registered=len(reg_)))
+    # round 4: the registry against what the translator reads in the CURRENT source (`Generated.outSites`): every site is
+    # registered, and the documented result dtype the sweep asserts on every call (`res`) is the dtype argument of the
+    # function's own `_get_output` call (None -> the input's dtype; `dtype` -> the keyword's default, float64)
+    try:
+        from translator import tables
+        sites = tables.extract_out_sites(core.REPO)
+    except Exception as ex:  # noqa
+        sites = []
+        findings.append(dict(kind='model', key='registry:out-sites-not-extracted', detail=dict(exc=repr(ex)[:200])))
+    DT = {'None': 'same', 'np.bool_': 'bool', 'bool': 'bool', 'np.int32': 'int32', 'np.float64': 'float64', 'dtype': 'float64'}
+    unreg, wrong, table = [], [], {}
+    for name, _params, found, _hand in sites:
+        path = 'mahotas.' + name
+        if path not in reg_:
+            unreg.append(path)
+            continue
+        for x in found:
+            if x.startswith('get_output('):
+                dt = x[len('get_output('):-1].split(',')[2]
+                table[path] = DT.get(dt, dt)
+                if reg_[path]['res'] is not None and DT.get(dt) != reg_[path]['res']:
+                    wrong.append((path, dt, reg_[path]['res']))
+    if unreg:
+        findings.append(dict(kind='model', key='registry:out-site-not-registered', detail=dict(missing=unreg)))
+    if wrong:
+        findings.append(dict(kind='model', key='registry:documented-dtype-table', detail=dict(mismatch=wrong)))
+    return dict(findings=findings, nontrivial=True, sig='cover',
+                tags=dict(stream='cover', pairs=len(pairs), registered=len(reg_), sites=len(sites), dtype_table=len(table)))
 
 
 def evaluate(cases):
